@@ -76,4 +76,6 @@ def trim(x):
     return x
 json.dump(trim(meta), open(os.path.join(dst, 'meta.json'), 'w'), indent=1, default=str)
 subprocess.run('git -C /repo worktree remove --force %s' % wt, shell=True)
+import hashlib
+shutil.rmtree('/verif/.cache/alt-' + hashlib.sha1(os.path.abspath(wt).encode()).hexdigest()[:8], ignore_errors=True)
 print(json.dumps({k: v for k, v in res.items() if k not in ('suite_with_change', 'demo_with_change_tail', 'demo_without_change_tail')}, indent=1, default=str)[:3000])
